@@ -61,7 +61,7 @@ REPS4 = {'quick': 30, 'thorough': 150}         # fillings per (config, subset, m
 PD_MAXK = {'quick': 3, 'thorough': 4}          # PdiffIndex: all subsets up to this size ...
 PD_REPS = {'quick': 2, 'thorough': 6}
 PD_RANDOM = {'quick': 300, 'thorough': 2000}   # ... plus this many random larger subsets
-RANDOM = {'quick': 18000, 'thorough': 900000}   # free random stream
+RANDOM = {'quick': 18000, 'thorough': 600000}   # free random stream
 
 FLOORS = {'quick': {'nontrivial': 2, 'monitors': {'M': 2}},
           'thorough': {'nontrivial': 2, 'monitors': {'M': 2}}}
